@@ -43,7 +43,7 @@ def check_vectors(chk, tu):
     for kind, sizes_imp, get_imp in (('args', 'args_sizes_get', 'args_get'), ('environ', 'environ_sizes_get', 'environ_get')):
         is_env = kind == 'environ'
         for gen in ('preview1', 'unstable'):
-            for n in (0, 1, 3):
+            for n in ((0, 1, 3) if chk.tier == 'quick' else (0, 1, 2, 3, 4, 6)):
                 cnt, size = unk('countptr', 'unsigned int'), unk('sizeptr', 'unsigned int')
                 strs, paths = vec_paths(tu, eps[sizes_imp][gen]['name'], range(n), is_env, [unk('instance'), cnt, size])
                 inst = '%s/%s[n=%d]' % (gen, kind, n)
